@@ -258,6 +258,71 @@ theorem C16_layers_cover (ls : List (ℝ × ℝ)) (hc : connected ls) (z top bot
           ih (connected_tail hc) hi1 (by simp) hb' ⟨hz.1, by rw [hconn]; exact not_lt.mp h0⟩
         exact ⟨i+1, lo, hi, by simpa using hi', hz'⟩
 
+private theorem layerAtGo_none (ls : List (ℝ × ℝ)) (k : Nat) (z : ℝ)
+    (h : ∀ p ∈ ls, ¬ (p.1 < z ∧ z ≤ p.2)) (hb : ∀ p, ls.getLast? = some p → p.1 ≠ z) :
+    layerAtGo ls k z = none := by
+  induction ls generalizing k with
+  | nil => rfl
+  | cons p r ih =>
+    obtain ⟨lo, hi⟩ := p
+    have h0 : ¬ (lo < z ∧ z ≤ hi) := h (lo, hi) (by simp)
+    cases r with
+    | nil =>
+      have h1 : ¬ lo = z := hb (lo, hi) (by simp)
+      simp [layerAtGo, h0, h1]
+    | cons q r' =>
+      simp only [layerAtGo, h0, if_false]
+      exact ih (k+1) (fun p hp => h p (List.mem_cons_of_mem _ hp))
+        (fun p hp => hb p (by simpa [List.getLast?_cons_cons] using hp))
+
+/-- the error branch: a depth that NO layer contains (above the top, below the bottom, or inside a gap
+of a disconnected stack) and that is not the bottom edge of the lowest layer has no layer — this is where
+`layer_at_depth` raises `ValueError("No layer at depth …")`; no hypothesis on the stack at all -/
+theorem C16_layers_no_layer (ls : List (ℝ × ℝ)) (z : ℝ)
+    (h : ∀ p ∈ ls, ¬ (p.1 < z ∧ z ≤ p.2)) (hb : ∀ p, ls.getLast? = some p → p.1 ≠ z) :
+    layerAt ls z = none := by
+  simpa [layerAt] using layerAtGo_none ls 0 z h hb
+
+private theorem connected_last_lt : ∀ {ls : List (ℝ × ℝ)} {lo hi : ℝ}, connected ls →
+    ls.getLast? = some (lo, hi) → lo < hi
+  | [], _, _, _, hl => by simp at hl
+  | [(a, b)], lo, hi, hc, hl => by
+      simp only [List.getLast?_singleton, Option.some.injEq, Prod.mk.injEq] at hl
+      obtain ⟨rfl, rfl⟩ := hl; exact hc
+  | p :: q :: r, lo, hi, hc, hl =>
+      connected_last_lt (connected_tail hc) (by simpa [List.getLast?_cons_cons] using hl)
+
+private theorem layerAtGo_bottom (ls : List (ℝ × ℝ)) (hc : connected ls) (k : Nat) (lo hi : ℝ)
+    (hl : ls.getLast? = some (lo, hi)) : layerAtGo ls k lo = some (k + (ls.length - 1)) := by
+  induction ls generalizing k with
+  | nil => simp at hl
+  | cons p r ih =>
+    obtain ⟨lo0, hi0⟩ := p
+    cases r with
+    | nil =>
+      simp only [List.getLast?_singleton, Option.some.injEq, Prod.mk.injEq] at hl
+      obtain ⟨rfl, rfl⟩ := hl
+      simp [layerAtGo]
+    | cons q r' =>
+      have hl' : (q :: r').getLast? = some (lo, hi) := by simpa [List.getLast?_cons_cons] using hl
+      have hmem : (lo, hi) ∈ q :: r' := List.mem_of_getLast? hl'
+      have hb := connected_below hc (lo, hi) hmem
+      have hlt : lo < hi := connected_last_lt (connected_tail hc) hl'
+      have hnot : ¬ (lo0 < lo ∧ lo ≤ hi0) := by
+        intro hh; simp only at hb; linarith [hh.1]
+      simp only [layerAtGo, hnot, if_false]
+      rw [ih (connected_tail hc) (k+1) hl']
+      simp only [List.length_cons]; congr 1; omega
+
+/-- the one closed edge: the bottom of the lowest layer belongs to the lowest layer -/
+theorem C16_layers_bottom_edge (ls : List (ℝ × ℝ)) (hc : connected ls) (lo hi : ℝ)
+    (hl : ls.getLast? = some (lo, hi)) : layerAt ls lo = some (ls.length - 1) := by
+  simpa [layerAt] using layerAtGo_bottom ls hc 0 lo hi hl
+
+example : layerAt [((-100 : ℝ), 0), (-300, -150)] (-120) = none :=       -- a gap
+  C16_layers_no_layer _ _ (by intro p hp; simp at hp; rcases hp with rfl | rfl <;> norm_num)
+    (by intro p hp; simp at hp; subst hp; norm_num)
+
 private theorem arasim_good : IceTable.goodTable ara_depths ara_lengths := by
   norm_num [IceTable.goodTable, ara_depths, ara_lengths]
 
